@@ -191,6 +191,49 @@ def job_primed(kind, n, states, depth2, faults=True):
     return t
 
 
+def job_deep():
+    """Chains: parent-walking attributes are iterative in the pinned code (any height), the subtree ones spend one frame
+    per level, height two - under the default recursion limit chains of 3000 / 900 / 450 levels must work."""
+    import sys
+    from anytree import util
+
+    t = core.Tally()
+
+    def run():
+        sys.setrecursionlimit(1000)
+        for height, group in ((3000, "up"), (900, "down"), (450, "height")):
+            n = height + 1
+            m = tree.Model([None] + list(range(n - 1)), [[i + 1] for i in range(n - 1)] + [[]])
+            for kind in ("user", "light"):
+                nodes = tree.build(m, tree.default_factory(kind), "topdown")
+                idm = tree.IdMap(nodes)
+                bad = []
+                if group == "up":
+                    for i in (n - 1, n // 2):
+                        nd = nodes[i]
+                        bad += [w for w, e, g in (("path", list(range(i + 1)), idm.seq(nd.path)), ("ancestors", list(range(i)), idm.seq(nd.ancestors)),
+                                                  ("root", 0, idm(nd.root)), ("depth", i, nd.depth), ("siblings", [], idm.seq(nd.siblings)),
+                                                  ("commonancestors", list(range(n // 2)), idm.seq(util.commonancestors(nd, nodes[n // 2]))),
+                                                  ("is_root", False, nd.is_root)) if e != g]
+                elif group == "down":
+                    for i in (0, n // 2):
+                        nd = nodes[i]
+                        bad += [w for w, e, g in (("descendants", list(range(i + 1, n)), idm.seq(nd.descendants)), ("leaves", [n - 1], idm.seq(nd.leaves)),
+                                                  ("size", n - i, nd.size)) if e != g]
+                else:
+                    bad += [w for w, e, g in (("height", height, nodes[0].height), ("height", 0, nodes[n - 1].height)) if e != g]
+                t.c["evaluations"] += 1
+                t.c["deep_chain_queries"] += 1
+                for w in bad[:2]:
+                    t.violation("C04: %s on a chain of height %d differs from its definition" % (w, height),
+                                {"engine": "E2", "module": MOD, "part": "deep", "kind": kind, "height": height, "query": w})
+                for nd in nodes:
+                    nd.parent = None
+
+    core.guard(t, "C04", {"engine": "E2", "module": MOD, "part": "deep"}, run, _limit=90)
+    return t
+
+
 # ---- E2 part -----------------------------------------------------------------------------------
 
 
@@ -292,6 +335,8 @@ def _tup(x):
 
 def replay(c):
     t = core.Tally()
+    if c["part"] == "deep":
+        return [v["why"] for v in job_deep().violations]
     if c["part"] == "shape":
         check_shape(t, _tup(c["shape"]), (c["kind"],), True)
     elif c["part"] == "primed":
@@ -307,6 +352,7 @@ def run(tier):
     bounds = []
     pool = core.Pool(0)
     try:
+        pool.run([(MOD, "job_deep", {})], into=t)
         for lo, hi, triples in ((1, 5, True), (6, nmax, False)):
             shapes = tree.shapes_upto(hi, lo)
             kinds = ("node", "user", "light", "anynode", "weird")
@@ -350,5 +396,5 @@ def run(tier):
                 "values compared; non-trivial = multi-node tree / a mutation that changed the forest" % nmax,
         "bounds": bounds,
     }
-    return {"tally": t, "coverage": cov, "guards": ("nontrivial", "query_rounds", "refused_ops", "primed_histories", "faulted_ops_in_histories"),
+    return {"tally": t, "coverage": cov, "guards": ("nontrivial", "query_rounds", "refused_ops", "primed_histories", "faulted_ops_in_histories", "deep_chain_queries"),
             "assumptions": ["bounded tree sizes and history depth 2 after any reachable forest"]}
